@@ -117,4 +117,16 @@ PROPS = {
         "assumptions": ["the scripted deployer replaces engine.DefaultDeployerRegistry; container deployers are out of scope",
                         "native go fuzzing of the same entry point is run separately (fuzz/), see DESIGN.md"],
     },
+    "C19": {
+        "test": "TestC19", "binary": "plain", "level": "exploration",
+        "rule": "generated input schemas (1-5 fields: int/string with bounds, bool, float, list, map, nested objects two levels deep, optional "
+                "fields with defaults) with documents that are valid (optionals omitted, values given typed or - via the YAML decoding path of "
+                "engine.Workflow.Run - as strings) or invalid by exactly one mutation (missing required, wrong type, bound violation, unknown field, "
+                "nested wrong type / unknown field); programs whose 1-4 steps and output consume the fields. oracle: invalid => Execute errors and "
+                "the scripted deployer saw no run-phase activity at all; valid => every logged plugin input and the returned output equal the "
+                "harness's own normalisation of the document. non-trivial = invalid document, or schema with a default or nested object",
+        "quick": {"cases": 1800, "shards": 12, "shrinktime": "30s"},
+        "thorough": {"cases": 30000, "shards": 16, "shrinktime": "120s", "timeout_s": 3000},
+        "assumptions": RUN_ASSUME + ["bounded strings are ASCII (the schema library counts bytes)", "an object with a single property accepts that property's value in its place (schema library feature), such mutations are not used"],
+    },
 }
